@@ -23,7 +23,7 @@ R.contract("PeerConnection.remove_out_bytes", params={"self": "PeerConnection", 
 R.contract("PeerConnection.work_write_queue", params={"self": "PeerConnection", "_thread": "StoppableThread"},
            requires=[("lock-free-at-start", "not self.write_lock.g_held")],
            raises=[], ghost_modifies=["self._write_msg_queue.g_taken", "*Message.g_enc", "self.g_removed", "self.write_lock.g_held"],
-           modifies=["self._write_buffer", "*MessageHeader.length", "*Avp._avps", "*list:Any"], props=["C15", "C14"],
+           modifies=["self._write_buffer", "*MessageHeader.length", "*Avp._avps", "*list:Any"], props=["C15", "C14", "C07"],
            note="writer thread: raises nothing; each iteration appends exactly the encoding of the dequeued message, or nothing")
 R.loop("PeerConnection.work_write_queue", 0,
        invariants=[("write-lock-released-between-messages", "not self.write_lock.g_held")],
@@ -49,6 +49,12 @@ R.contract("Socket.send", trusted=True, params={"self": "Socket", "data": "bytes
            ghost_modifies=["self.g_sent"], ghost_ensures=["self.g_sent == old(self.g_sent) + data[:result]"],
            ensures_exc={"OSError": ["self.g_sent == old(self.g_sent)"]},
            note="T-sock: a non-blocking send accepts 0..len bytes of the buffer it is given (a prefix), or fails")
+R.contract("Socket.sendall", trusted=True, params={"self": "Socket", "data": "bytes"},
+           raises=[Raise("OSError", "True", "may")],
+           ghost_modifies=["self.g_sent"], ghost_ensures=["self.g_sent == old(self.g_sent) + data"],
+           ensures_exc={"OSError": ["is_prefix(old(self.g_sent), self.g_sent) and "
+                                    "is_prefix(self.g_sent[old(len(self.g_sent)):], data)"]},
+           note="T-sock: sendall transmits all of the buffer, or fails after an UNKNOWN prefix of it has gone out")
 R.contract("Socket.sctp_send", trusted=True, params={"self": "Socket", "data": "bytes", "flags": "Any"}, returns="int",
            raises=[Raise("OSError", "True", "may")],
            ensures=["0 <= result <= len(data)"],
@@ -85,7 +91,7 @@ _slice = R.contract("Node._handle_connections@for:wsock", params={"self": "Node"
                      "dict:self.connections", "dict:self.peer_sockets", "dict:self.socket_peers",
                      "dict:self._half_ready_connections", "dict:self._peer_waiting_answer", "*Event.flag", "*list:Peer",
                      "*SequenceGenerator._sequence"],
-           props=["C15", "C14", "C13"],
+           props=["C15", "C14", "C13", "C07"],
            note="one iteration of `for wsock in ready_w` (send branch), under interference of the writer thread: the write "
                 "buffer may grow at its end whenever it is read outside write_lock and when the lock is acquired")
 _slice.interference = [("PeerConnection", "_write_buffer")]
